@@ -26,7 +26,8 @@ class Body_(Contract):
                    'callee contract of _raise as proved: never returns, raises the mapped error',
                    'the regular expression MULTIPART_BOUNDARY_PATT is a library call (opaque match object)')
     expected_labels = ('call.reader_wired_to_request_and_config', 'post.input_replaced_by_rewound_copy', 'raise.only_mapped_errors',
-                       'raise.request_errors_through_the_error_map')
+                       'raise.request_errors_through_the_error_map', 'raise.refused_body_stays_refused',
+                       'raise.failure_remembered_nothing_cached')
 
     def pre(self, X):
         g = X.globals
@@ -41,6 +42,8 @@ class Body_(Contract):
         self.env_store = {}
         self.seeked = []
         self.via_map = False
+        self.remembered = None
+        self.reader_called = False
         c = self
 
         def patt_match(X, args, kwargs):
@@ -48,6 +51,14 @@ class Body_(Contract):
             return VObj('Match', {'boundary': X.fresh_str('boundary')}) if c.is_mp else NONE
 
         def env_get(X, args, kwargs):
+            key = [a for a in args if isinstance(a, VStr)][0]
+            k = z3.simplify(key.t).as_string() if z3.is_string_value(z3.simplify(key.t)) else None
+            if k == 'ombott.request.body_error':
+                # a failure remembered by an earlier access of this request?
+                if X.choose(2, 'an earlier access of this request failed?') == 1:
+                    c.remembered = VExc(g['BodyParsingError'], tag='remembered')
+                    return c.remembered
+                return NONE
             return X.fresh_str('CONTENT_TYPE')
 
         def mk_markup(X, args, kwargs):
@@ -63,6 +74,7 @@ class Body_(Contract):
                            z3.BoolVal(kwargs['max_body_size'] is c.maxbody),
                            z3.BoolVal(kwargs['markup'] is (c.markup if c.is_mp else NONE) or (not c.is_mp and isinstance(kwargs['markup'], VNone))))
                     if ok else z3.BoolVal(False))
+            c.reader_called = True
             k = X.choose(3, '_body_read: ok | BodySizeError | BodyParsingError')
             if k == 1:
                 X.raise_(g['BodySizeError'], 'reader')
@@ -76,6 +88,7 @@ class Body_(Contract):
                     z3.BoolVal(isinstance(e, VExc) and e.pyclass is not None and issubclass(e.pyclass, c.ReqErr)
                                and isinstance(cls, VClass) and cls.pyclass is c.ReqErr))
             c.via_map = True
+            c.raised_err = e
             raise_mapped(X)
 
         def seek(X, args, kwargs):
@@ -113,6 +126,15 @@ class Body_(Contract):
 
     def post_raise(self, X, exc):
         X.prove('raise.only_mapped_errors', z3.BoolVal(exc.tag == 'mapped' and self.via_map))
+        if self.remembered is not None:
+            # a refused body stays refused: nothing is read again, the remembered failure is raised again
+            X.prove('raise.refused_body_stays_refused',
+                    z3.BoolVal(not self.reader_called and getattr(self, 'raised_err', None) is self.remembered))
+        else:
+            # a fresh failure is remembered for later accesses, and nothing is cached as if it were the body
+            X.prove('raise.failure_remembered_nothing_cached',
+                    z3.BoolVal(self.env_store.get('ombott.request.body_error') is getattr(self, 'raised_err', None)
+                               and 'wsgi.input' not in self.env_store and 'ombott.request.body' not in self.env_store))
 
 
 class ContentLength(Contract):
